@@ -2,12 +2,12 @@
 EXTENDS Regrid, Json, IOUtils
 WithField(S) == {[c |-> c, field |-> SrcField(c), smask |-> [p \in 1..N(c.src) |-> SMask(c, p)],
                   tmask |-> [p \in 1..N(c.dst) |-> TMask(c, p)]] : c \in S}
-Out == CASE IOEnv.WHAT = "nearest" -> SetToSeq(WithField(NearestCases))
-         [] IOEnv.WHAT = "identity" -> SetToSeq(WithField(IdCases))
-         [] IOEnv.WHAT = "linear" -> SetToSeq(WithField(LinearCases))
+Out == CASE IOEnv.WHAT = "nearest" -> SetToSeq(WithField(NearestCases(0)))
+         [] IOEnv.WHAT = "identity" -> SetToSeq(WithField(IdCases(0)))
+         [] IOEnv.WHAT = "linear" -> SetToSeq(WithField(LinearCases(0)))
 (* between layouts of one grid nearest-neighbour regridding is the identity (theorem on the spec) *)
 ASSUME IOEnv.WHAT = "identity" =>
-   \A c \in {x \in IdCases : D(x.src) = 2} : \A p \in 1..N(c.dst) : NearestVals(c, Locs(c.dst, "struct")[p]) = {Tok(Locs(c.dst, "struct")[p])}
+   \A c \in {x \in IdCases(0) : D(x.src) = 2} : \A p \in 1..N(c.dst) : NearestVals(c, Locs(c.dst, "struct")[p]) = {Tok(Locs(c.dst, "struct")[p])}
 ASSUME ndJsonSerialize(IOEnv.OUT_FILE, Out)
 VARIABLE x
 Init == x = 0
